@@ -3,6 +3,8 @@ C19 helper lemmas, part 4: the `Seq.Read` loop returns the requested bases, for 
 is `Good` for the file (the bases of one line are contiguous at `position`).
 -/
 import Hts.Model.Fai
+set_option linter.unusedVariables false
+set_option linter.unusedSimpArgs false
 namespace Hts.Lemmas.Fai
 open Hts.Model.Fai
 
